@@ -123,11 +123,11 @@ CHECKS = {
                   "'raises <=> overshoot' solver obligations",
         text="Partial: (a) every pressure-base quantity, tensor entry and attribute spelling is V2P of exactly the matching volume-base "
              "quantity with the QHA pressure field and requested grid (for every implementation of v2p); (b) qha's interpolation kernel "
-             "maps its own pressure field to the requested pressure and reproduces cubics exactly, for every bracket with distinct "
-             "nodes; (c) the range check raises ValueError iff min_T P[T,last] < max requested p on all explored paths, runs after "
+             "maps its own pressure field to the requested pressure, reproduces cubics exactly and returns a node's value at a node's "
+             "pressure (so P(T,V(T,P)) = P holds exactly on grid nodes), for every bracket with distinct nodes; (c) the range check raises ValueError iff min_T P[T,last] < max requested p on all explored paths, runs after "
              "refine_grid and propagates.",
-        note="'P(T,V(T,P)) = P to interpolation accuracy' and monotonicity of V(P) for arbitrary data are numerical-analysis statements "
-             "and are not claimed. The bracket search (numba) is stubbed by enumeration.",
+        note="'P(T,V(T,P)) = P to interpolation accuracy' between nodes and monotonicity of V(P) for arbitrary data are numerical-analysis "
+             "statements and are not claimed. The bracket search (numba) is stubbed by enumeration.",
         design="3/C06"),
     "C07": dict(
         engine="symnum+z3",
